@@ -43,9 +43,16 @@ Definition add_remote (t : table) (s : service) : table :=
        end.
 
 (* what a received datagram says, after the real parser; appseq = AppSequence/@InstanceId if present *)
+(* everything a Bye may carry besides the endpoint reference: the AppSequence header and the optional Types /
+   Scopes / XAddrs / MetadataVersion elements of ByeType.  _handle_received_bye reads none of them. *)
+Record bye_extra := mkBx {
+  bx_appseq : option Z; bx_mdv : option Z; bx_types : list qname; bx_scopes : option (list bytes); bx_xaddrs : list bytes }.
+(* what _send_bye writes: AppSequence, no optional element *)
+Definition bx_plain (iid : Z) : bye_extra := mkBx (Some iid) None [] None [].
+
 Inductive msg :=
 | MHello (appseq : option Z) (s : service)
-| MBye (epr : bytes)
+| MBye (epr : bytes) (x : bye_extra)
 | MProbe (types : option (list qname)) (scopes : option scopes_filter)
 | MProbeMatches (appseq : option Z) (ms : list service)
 | MResolve (epr : bytes)
@@ -93,7 +100,7 @@ Section Handle.
     | MHello (Some iid) s =>
         (mkD (add_remote (remote d) (with_iid iid s)) (local d),
          match s_xaddrs s with [] => [OResolve (s_epr s)] | _ => [] end)
-    | MBye epr => (mkD (t_del epr (remote d)) (local d), [])
+    | MBye epr _ => (mkD (t_del epr (remote d)) (local d), [])          (* whatever else the Bye carries *)
     | MProbe types scopes =>
         match filter_services M fixed split (t_values (local d)) types scopes with
         | Raise => (d, [])
@@ -122,7 +129,7 @@ Section Handle.
   Definition msg_of_out (o : out) : msg :=
     match o with
     | OHello s => MHello (Some (s_iid s)) s
-    | OBye s => MBye (s_epr s)
+    | OBye s => MBye (s_epr s) (bx_plain (s_iid s))
     | OProbeMatch s => MProbeMatches (Some (s_iid s)) [s]
     | OResolveMatch s => MResolveMatches (Some (s_iid s)) (Some s)
     | OResolve epr => MResolve epr
